@@ -15,6 +15,10 @@ checks = {
    technique="bounded-exhaustive enumeration of file contents (token sequences, lengths x header counts) through the real loader, worker subprocess with address-space limit",
    text="Every sequence of <=5 (7 thorough) lines over a 12-line ASCII alphabet (padded past the 84-byte header, and unpadded for <=3 lines), every binary length 0..235 x a header-count menu (small, length-consistent +-1, 2^16, 2^31, 2^32-1 and every count consistent with the length only modulo 2^32 or 2^31) x 4 fill patterns, every truncation/extension of a valid binary and a valid ASCII file, a 70 KiB single line and a 30000-line file, through render.LoadSTL and obj.ImportSTL under recover with per-file allocation measurement; a dying worker (fatal OOM) is reported as a violation on the file being loaded.",
    note="contents bounded to the alphabets; 'hang' is a 60 s watchdog on files <= 400 KiB; allocation bound 64*size+1MiB per binary file"),
+ "C05": dict(engine="L", design="3/C05",
+   technique="exhaustive enumeration of sign/magnitude tables on the renderer's own discovered lattice, through the real renderers (explicit-state over cell configurations)",
+   text="Through the real render.ToTriangles with the uniform and the octree marching-cubes renderers on lookup fields over the lattice each renderer itself samples (discovered by a probe render): every {-1,0,1}^8 table and all 256 sign configurations x every choice of <=2 special corners with magnitude 1/4 or 1e-13 of a free cell; all 4096 sign tables of a face-adjacent cell pair in the 3 orientations (plus ternary values on the shared face; {-1,0,1}^12 thorough); 2^18 sign tables of a 3x3x2 block (quick: a 2^16 / 2^14 prefix); 20 analytic scenes x 7 (17) resolutions x 3 boxes. Oracle: welded (1e-6 cell) directed-edge balance, no repeated vertex, positive signed volume, vertices within the cells adjacent to inside corners.",
+   note="boundary corners positive so the surface is strictly inside the box; octree tables scaled so nothing is prunable (pruning is C07); closedness for arbitrary magnitudes only through the scenes"),
 }
 props = [json.loads(l) for l in open(os.path.join(V, "properties.jsonl"))]
 pending_reason = "check not built yet in this session (work in progress, see DESIGN.md section 3 for the planned bounded-exhaustive check)"
